@@ -150,6 +150,19 @@ def run(res, tier, build_ok):
     std = cmds.StdInfo(drv, data["commands"])
     sets = cmds.opcode_sets()
     reqs = []
+    # "the CDB handed to the transport": one long-lived device of each kind carries every command built below
+    import sys as _sys
+    from lib import virtos
+    sgio, iscsi = _sys.modules["sgio"], _sys.modules["iscsi"]
+    from pyscsi.pyscsi.scsi_device import SCSIDevice
+    from pyscsi.pyiscsi.iscsi_device import ISCSIDevice
+    vos = virtos.VirtualOS()
+    vos.install()
+    vos.mknod("/dev/sgv")
+    wire = []
+    sgio.BACKEND = lambda f, cdb, do, di: (wire.append(bytes(cdb)), (0, None))[1]
+    iscsi.BACKEND = lambda lun, task, do, di: (wire.append(bytes(task.cdb)), (0, None))[1]
+    transports = [("sgio", SCSIDevice("/dev/sgv")), ("iscsi", ISCSIDevice("iscsi://127.0.0.1/iqn.t:x/0", "iqn.i"))]
     for c in data["commands"]:
         module = c["module"].split(".")[-1]
         cls = cmds.get_class(c["module"], c["cls"])
@@ -173,6 +186,20 @@ def run(res, tier, build_ok):
                     impl = None
                     err = type(e).__name__
                 shown = {k: (v if isinstance(v, (int, type(None))) else ("<%d bytes>" % len(v) if isinstance(v, (bytes, bytearray)) else "<dict>")) for k, v in kw.items()}
+                if impl is not None and len(cmd.datain) + len(cmd.dataout) <= (1 << 16):
+                    for tname, tdev in transports:
+                        del wire[:]
+                        try:
+                            tdev.execute(cmd)
+                            onwire = list(wire)
+                        except Exception as e:      # noqa
+                            onwire = "raises " + type(e).__name__
+                        res.count("CDB on the wire, " + tname)
+                        if onwire != [impl] or bytes(cmd.cdb) != impl:
+                            res.violation("cls=%s transport=%s wire" % (c["cls"], tname),
+                                          "%s over %s: what reaches the transport (%s) is not the CDB of the command (%s)" % (
+                                              c["cls"], tname, onwire if isinstance(onwire, str) else [w.hex() for w in onwire], impl.hex()),
+                                          {"class": c["cls"], "module": module, "set": sn, "args": shown, "transport": tname, "cdb": impl.hex()})
                 res.case((module, c["cls"], sn, tuple(sorted(shown.items(), key=str))),
                          {"class": c["cls"], "set": sn, "args": shown, "cdb": impl.hex() if impl else err})
                 res.count("class " + c["cls"])
@@ -184,6 +211,7 @@ def run(res, tier, build_ok):
                 reqs.append((module, c, sn, op, s, kw, shown, impl, err,
                              "stdcdb %s %s %d %s" % (module, c["cls"], dolen, cmds.enc_env(envd)),
                              "build %s %s %s %s %s" % (module, c["cls"], sn, s["opname"], cmds.enc_env(envd))))
+    sgio.BACKEND, iscsi.BACKEND = None, None
     reps_std = drv.batch([r[9] for r in reqs])
     reps_mod = drv.batch([r[10] for r in reqs])
     for (module, c, sn, op, s, kw, shown, impl, err, _, _), rstd, rmod in zip(reqs, reps_std, reps_mod):
